@@ -176,6 +176,7 @@ def _c15():
         ("R-ST-KEEPKEY", "adding to, deleting from or trimming a stream never removes its key (the last-ID state lives in the value)", rules_stream.rule_keepkey),
         ("R-ST-IDPARSE", "the stream-ID parser accumulates with checked arithmetic (no wrapping of out-of-range IDs)", rules_stream.rule_idparse),
         ("R-ST-EXHAUST", "XADD * on an existing stream is guarded by a last-ID == max-ID refusal", rules_stream.rule_exhaust),
+        ("R-ST-RANGE-END", "the inclusive end position of a stream range read is never a saturating decrement of a search insertion point (insertion point 0 = no entry, not entry 0)", rules_stream.rule_st_range_end),
         ("R-SORTED-SEARCH", "a sequence that some function looks up by binary search is kept sorted by every function that grows it (order test of the element, insert at the searched position, or a sort on every path)", rules_order.rule_sorted_search(("storage::stream::", "storage::consumer_groups::"))),
         ("R-SEQ-WHOLE", "a reader of a ring buffer's as_slices() uses both halves (or makes the deque contiguous first): range reads see every present entry", rules_order.rule_whole_view(("storage::",))),
         ("R-PANIC", "stream-ID arithmetic on client-chosen IDs (incl. IDs read back from the stream's atomics) is bounded or checked", rules_panic.make_taint_rule({"client"}, ("arith",), "stream id arithmetic", scope_prefix=("storage::stream::", "storage::consumer_groups::"))),
@@ -246,6 +247,8 @@ def _c08():
         ("R-WATCH-W3", "the watched-key check dominates execution in EXEC and its abort edges (modified / error) execute nothing; EXEC, DISCARD, UNWATCH clear the watch set", rules_tx.rule_w3),
         ("R-TX-RESET", "see C07: EXEC/DISCARD/UNWATCH forget all watched keys on every path", rules_tx.rule_reset),
         ("R-WATCH-W4", "modification stamps are never forgotten or reused: nothing removes entries of the shared per-key stamp map, every stamp written is a fresh value of the global counter, which only moves forward", rules_tx.rule_w4),
+        ("R-WATCH-DB", "the check at EXEC and the unregistration at UNWATCH use the database stored with the watched key, not the connection's current selection", rules_tx.rule_watch_db),
+        ("R-WATCH-REWATCH", "WATCH of an already watched key keeps the first baseline (no overwriting insert into the watch set)", rules_tx.rule_rewatch),
     ]
 
 
